@@ -280,22 +280,31 @@ func run(c *core.Ctx) {
 			}
 			// derived SNP policy must carry the measurement constraint for the named count
 			if g.SevSnp != nil && req != 0 {
-				var pol interface{ GetMeasurement() []byte }
-				var err error
-				c.Guard(i, "SevPolicy", gname, core.Budget{PanicNotJudged: true}, func() {
-					p, e := gcetcbendorsement.SevPolicy(ctx, t.e, &gcetcbendorsement.SevPolicyOptions{LaunchVmsas: req})
-					pol, err = p, e
-				})
-				want, present := g.SevSnp.Measurements[req]
-				switch {
-				case err == nil && !present:
-					c.Oracle(i, "SevPolicy", "policy-without-measurement-constraint", gname, "SevPolicy succeeded for vmsas=%d although the endorsement lists no measurement for it", req)
-				case err == nil && !bytes.Equal(pol.GetMeasurement(), want):
-					c.Oracle(i, "SevPolicy", "policy-wrong-measurement", gname, "SevPolicy vmsas=%d measurement %x, endorsed %x", req, pol.GetMeasurement(), want)
-				case err == nil:
-					c.Cell("SevPolicy|%s|constraint-present", reqKind)
-				default:
-					c.Cell("SevPolicy|%s|refused", reqKind)
+				// every combination of the other options: none of them may excuse a named count
+				for _, fl := range []struct {
+					tag              string
+					allow, overwrite bool
+					base             *cpb.Policy
+				}{{"", false, false, nil}, {"+allow-unspecified", true, false, nil}, {"+overwrite", false, true, nil}, {"+allow-unspecified+overwrite", true, true, nil},
+					{"+empty-base", false, false, &cpb.Policy{}}, {"+allow-unspecified+empty-base", true, false, &cpb.Policy{}}} {
+					var pol interface{ GetMeasurement() []byte }
+					var err error
+					entry := "SevPolicy" + fl.tag
+					c.Guard(i, entry, gname, core.Budget{PanicNotJudged: true}, func() {
+						p, e := gcetcbendorsement.SevPolicy(ctx, t.e, &gcetcbendorsement.SevPolicyOptions{LaunchVmsas: req, AllowUnspecifiedVmsas: fl.allow, Overwrite: fl.overwrite, Base: fl.base})
+						pol, err = p, e
+					})
+					want, present := g.SevSnp.Measurements[req]
+					switch {
+					case err == nil && !present:
+						c.Oracle(i, entry, "policy-without-measurement-constraint", gname, "SevPolicy succeeded for vmsas=%d although the endorsement lists no measurement for it (policy measurement %x)", req, pol.GetMeasurement())
+					case err == nil && !bytes.Equal(pol.GetMeasurement(), want):
+						c.Oracle(i, entry, "policy-wrong-measurement", gname, "SevPolicy vmsas=%d measurement %x, endorsed %x", req, pol.GetMeasurement(), want)
+					case err == nil:
+						c.Cell("%s|%s|constraint-present", entry, reqKind)
+					default:
+						c.Cell("%s|%s|refused", entry, reqKind)
+					}
 				}
 			}
 		}
